@@ -11,15 +11,15 @@ COMMON_NOTE = "Trusted: Lean kernel + {propext, Classical.choice, Quot.sound}; J
 CLAIMED = {
     "C01": {
         "category": "other",
-        "technique": "Lean 4 proofs of per-bucket refinement (lookup, cursor, in-transaction edits on every well-formed tree) + verified file checker run on the real bytes after every commit + differential correspondence of every API outcome against the Lean specification",
-        "text": "Proved in Lean, for all keys, values, trees and edit sequences (Jamm/Props/C01.lean): the reference is an ordered map; on every well-formed B+tree the model of Bucket::get and of the cursor return the reference's answer on the tree's in-order contents, any sequence of put/delete leaf edits equals the same sequence of reference-map operations and preserves well-formedness; the executable checker wfb is sound for well-formedness. NOT proved: that commit (rebalance/spill) turns a well-formed overlay into a well-formed file with the same contents; that step is decided per commit by running the verified checker and the contents comparison on the bytes the real code wrote (C05) — hence category other, not proof. Tie, checked on every run: histories (random profiles, directed enumerations of all delete ranges over 1/2/3-level trees with and without nested buckets, rollbacks, reopen, misuse of deleted handles) are executed on /repo built from the working tree and every call outcome and every post-commit dump (same process and after reopen) is compared by the Lean driver with the specification.",
+        "technique": "Lean 4 proofs of per-bucket refinement (lookup, cursor, in-transaction edits on every well-formed tree) + Lean proof that the model of commit (rebalance replay + spill) preserves contents and the tree invariant, tied by per-commit shape prediction + verified file checker run on the real bytes after every commit + differential correspondence of every API outcome against the Lean specification",
+        "text": "Proved in Lean, for all keys, values, trees and edit sequences (Jamm/Props/C01.lean): the reference is an ordered map; on every well-formed B+tree the model of Bucket::get and of the cursor return the reference's answer on the tree's in-order contents, any sequence of put/delete leaf edits equals the same sequence of reference-map operations and preserves well-formedness; the executable checker wfb is sound for well-formedness. Layer C: the model of one bucket's commit (replay of any list of rebalance steps, then spill at any page size) provably leaves the bucket's contents unchanged and keeps the tree invariant (separators bound subtrees, no routing gap, uniform depth), which every put/delete keeps too and which implies well-formedness — so the read theorems hold at every point of every history of the model; the correspondence run checks on every commit that this model predicts the exact shape (keys, page cuts) of the tree the real code wrote. NOT proved: the serialisation of nodes to pages, the composition over nested buckets and the page accounting of commit; those are decided per commit by the verified file checker and the contents comparison on the bytes the real code wrote (C05) — hence category other, not proof. Tie, checked on every run: histories (random profiles, directed enumerations of all delete ranges over 1/2/3-level trees with and without nested buckets, rollbacks, reopen, misuse of deleted handles) are executed on /repo built from the working tree and every call outcome and every post-commit dump (same process and after reopen) is compared by the Lean driver with the specification.",
         "design_ref": "DESIGN.md §5 C01, §3.1, §3.4–3.7",
         "note": COMMON_NOTE + "Modelled, tied by correspondence only: search/cursor/leaf edits (their Lean models are exercised through the spec comparison), commit.",
     },
     "C05": {
         "category": "other",
         "technique": "independent file checker written in Lean (decoder + WF + page accounting), proved sound in Lean, executed on the real file bytes after every commit; plus DB::check and contents comparison with the specification",
-        "text": "After every commit of every generated history the harness snapshots the file and the Lean driver decodes it with the layout regenerated from /repo/src, chooses the header as the code does, unfolds every bucket tree, evaluates wfb (keys strictly ascending within and across pages, separators bound their subtrees, every element inside its run), and checks that reached runs + free-list run + free-list entries are exactly pages 2..numPages-1 with no page twice; the decoded contents must equal the specification's and DB::check must agree. Proved in Lean: wfb is sound for WF (so Layer Q theorems apply to the real file), the accounting comparison is exact (no duplicate, none missing, none out of range). Not proved: that commit always yields such a file (decided per commit instead).",
+        "text": "After every commit of every generated history the harness snapshots the file and the Lean driver decodes it with the layout regenerated from /repo/src, chooses the header as the code does, unfolds every bucket tree, evaluates wfb (keys strictly ascending within and across pages, separators bound their subtrees, every element inside its run), and checks that reached runs + free-list run + free-list entries are exactly pages 2..numPages-1 with no page twice; the decoded contents must equal the specification's and DB::check must agree. Proved in Lean: wfb is sound for WF (so Layer Q theorems apply to the real file), the accounting comparison is exact (no duplicate, none missing, none out of range); the model of one bucket's commit keeps 'keys strictly ascending, separators bound their subtrees' for every tree, every list of rebalance steps and every page size (commit_keeps_tree_wellformed), and the run checks on every commit that this model predicts the shape of the tree the code wrote and that the invariant's executable forms (proved sound) hold on the real overlay before and the real tree after. Not proved: that commit's page allocation and release always yield exact accounting (decided per commit by the checker, and by the free-list protocol theorems of C10).",
         "design_ref": "DESIGN.md §5 C05, §3.2, §3.6",
         "note": COMMON_NOTE + "The checker shares no code with jammdb; bytes outside defined ranges (padding, stale tails) are unconstrained by design.",
     },
@@ -61,7 +61,7 @@ CLAIMED = {
     "C16": {
         "category": "other",
         "technique": "configuration-free Lean specification + Lean theorems on growth arithmetic and generated parameters + differential replay of the same histories under the configuration product",
-        "text": "The specification has no configuration parameter and the Layer Q/T theorems hold for arbitrary trees, so behaviour is a function of the history only; proved: regenerated tunables satisfy Params.Valid, the computed file extension always covers the required size in whole steps, growth precedes writes in the regenerated commit order. Decided by correspondence: the same histories are replayed under page sizes {1024,1032,2048,3000,4096,5000,16384,65536,1MiB} x page counts {4,32,1000} x strict x populate (quick: 14 combinations covering every value; thorough: full product) and compared with the single specification run; strict mode must never reject; growth runs cross several 8 MiB extension steps including a single commit that needs more than one step. Category other because config-independence of commit is not a theorem (Layer C).",
+        "text": "The specification has no configuration parameter and the Layer Q/T theorems hold for arbitrary trees, so behaviour is a function of the history only; proved: regenerated tunables satisfy Params.Valid, the computed file extension always covers the required size in whole steps, growth precedes writes in the regenerated commit order. Decided by correspondence: the same histories are replayed under page sizes {1024,1032,2048,3000,4096,5000,16384,65536,1MiB} x page counts {4,32,1000} x strict x populate (quick: 14 combinations covering every value; thorough: full product) and compared with the single specification run; strict mode must never reject; growth runs cross several 8 MiB extension steps including a single commit that needs more than one step. Layer C: proved that the contents a commit leaves in a bucket are the same under any two page sizes (commit_contents_independent_of_pagesize) and that commit keeps the tree invariant at every page size with the regenerated tunables. Category other because the serialisation and growth paths are tied by correspondence, not proved.",
         "design_ref": "DESIGN.md §5 C16",
         "note": COMMON_NOTE + "Page sizes that are not a multiple of 8 are an open known finding (D14: misaligned reference, debug abort) and are probed separately; mmap_populate/direct_writes only change OS flags.",
     },
